@@ -42,13 +42,91 @@ def make_scratch(root: pathlib.Path) -> pathlib.Path:
     return d
 
 
+# ---- AST-computed edits (offset based, so they follow the current source) -------------------
+def _find_method(tree, cls, meth):
+    import ast
+    for n in ast.walk(tree):
+        if isinstance(n, ast.ClassDef) and n.name == cls:
+            for f in n.body:
+                if isinstance(f, ast.FunctionDef) and f.name == meth:
+                    return f
+    return None
+
+
+def _offsets(src):
+    lines = src.splitlines(keepends=True)
+    starts = [0]
+    for ln in lines:
+        starts.append(starts[-1] + len(ln.encode()))
+    return starts
+
+
+def t_drop_kw(src: str, cls: str, meth: str, kw: str):
+    """remove keyword argument `kw` from the (last) constructor call returned by cls.meth"""
+    import ast
+    tree = ast.parse(src)
+    f = _find_method(tree, cls, meth)
+    if f is None:
+        return None
+    b = src.encode()
+    st = _offsets(src)
+    for r in [x for x in ast.walk(f) if isinstance(x, ast.Call)]:
+        for i, k in enumerate(r.keywords):
+            if k.arg == kw:
+                a = st[k.value.lineno - 1] + k.value.col_offset
+                # start of "kw=": search backwards for the name
+                start = b.rfind(kw.encode() + b"=", 0, a)
+                end = st[k.value.end_lineno - 1] + k.value.end_col_offset
+                # swallow a following comma
+                rest = b[end:]
+                j = 0
+                while j < len(rest) and rest[j:j + 1] in (b" ", b"\n"):
+                    j += 1
+                if rest[j:j + 1] == b",":
+                    end += j + 1
+                return (b[:start] + b[end:]).decode()
+    return None
+
+
+def t_swap_kw(src: str, cls: str, meth: str, kw1: str, kw2: str):
+    import ast
+    tree = ast.parse(src)
+    f = _find_method(tree, cls, meth)
+    if f is None:
+        return None
+    b = src.encode()
+    st = _offsets(src)
+    for r in [x for x in ast.walk(f) if isinstance(x, ast.Call)]:
+        ks = {k.arg: k for k in r.keywords}
+        if kw1 in ks and kw2 in ks:
+            def span(k):
+                return st[k.value.lineno - 1] + k.value.col_offset, st[k.value.end_lineno - 1] + k.value.end_col_offset
+            (a1, e1), (a2, e2) = sorted([span(ks[kw1]), span(ks[kw2])])
+            return (b[:a1] + b[a2:e2] + b[e1:a2] + b[a1:e1] + b[e2:]).decode()
+    return None
+
+
+TRANSFORMS = {"drop_kw": t_drop_kw, "swap_kw": t_swap_kw}
+
+
 def _one(args):
     prop, root, mut = args
     from .__main__ import run_property
     from .core import AnalysisError
     scratch = make_scratch(pathlib.Path(root))
     try:
-        edits = mut.get("edits") or [(mut["file"], mut["old"], mut["new"])]
+        if "transform" in mut:
+            p = scratch / mut["file"]
+            tname, *targs = mut["transform"]
+            new_src = TRANSFORMS[tname](p.read_text(), *targs) if p.exists() else None
+            if new_src is None or new_src == p.read_text():
+                return {"name": mut["name"], "status": "skipped", "why": f"transform {mut['transform']} found no site"}
+            p.write_text(new_src)
+            try:
+                compile(new_src, str(p), "exec")
+            except SyntaxError as e:
+                return {"name": mut["name"], "status": "bad-mutant", "why": f"does not compile: {e}"}
+        edits = mut.get("edits") or ([(mut["file"], mut["old"], mut["new"])] if "old" in mut else [])
         for file, old, new in edits:
             p = scratch / file
             if not p.exists():
